@@ -20,6 +20,8 @@ func init() {
 			{Pkg: "wire", Entry: "VerifH09a", What: "RowDescription/DataRow well-formed; rejected row leaves no partial bytes",
 				Quick: map[string]int{"COLS": 2, "VLEN": 1}, Thorough: map[string]int{"COLS": 2, "VLEN": 2},
 				Witnesses: []string{"unencodable", "typed-null", "non-null-empty"}},
+			{Pkg: "wire", Entry: "VerifH09d", What: "RowDescription for column definitions whose every field (table, attribute numbers, OID, width, type modifier, name) is symbolic: one frame, body parses under the grammar",
+				Quick: map[string]int{"COLS": 2}, Witnesses: []string{"two-columns"}},
 			{Pkg: "wire", Entry: "VerifH02p", What: "ParameterDescription at the 16-bit boundaries: declared count matches the items",
 				Quick: map[string]int{}, Witnesses: []string{"beyond-int16", "protocol-maximum"}, MaxSteps: 40000000},
 			{Pkg: "wire", Entry: "VerifH06b", What: "whole-capture grammar monitor over extended-query histories",
@@ -58,6 +60,9 @@ func init() {
 			{Pkg: "wire", Entry: "VerifH06b", What: "designated replies, one ReadyForQuery per Sync, one ErrorResponse then skip until Sync",
 				Quick: map[string]int{"K": 3}, Thorough: map[string]int{"K": 4, "Q": 1},
 				Witnesses: []string{"error-then-more", "skipped-until-sync"}},
+			{Pkg: "wire", Entry: "VerifH06b", What: "same, with a ParseFn that may also answer a column-less statement, zero statements or two statements (Parse of several statements is one ErrorResponse, then skip)",
+				Quick: map[string]int{"K": 3, "PM": 5}, Thorough: map[string]int{"K": 4, "PM": 5},
+				Witnesses: []string{"parse-with-several-statements", "skipped-until-sync"}},
 			{Pkg: "wire", Entry: "VerifH06b", What: "same, with simple queries, unknown-type and oversized messages interleaved",
 				Quick: map[string]int{"K": 3, "Q": 1, "X": 1}, Thorough: map[string]int{"K": 3, "Q": 1, "X": 1},
 				Witnesses: []string{"unknown-or-oversized", "skipped-until-sync"}},
@@ -75,6 +80,9 @@ func init() {
 				Witnesses: []string{"unencodable", "typed-null", "non-null-empty"}},
 			{Pkg: "wire", Entry: "VerifH09d", What: "RowDescription carries every column field (all symbolic) in protocol order with the format by rule",
 				Quick: map[string]int{"COLS": 2}, Witnesses: []string{"two-columns"}},
+			{Pkg: "wire", Entry: "VerifH08b", What: "int4 columns (text and binary encodings differ) under every none/one/positional result-format choice: each DataRow field is encoded in the format the RowDescription announces for it",
+				Quick: map[string]int{"COLS": 2}, Thorough: map[string]int{"COLS": 3},
+				Witnesses: []string{"one-code-applies-to-all", "positional-codes"}},
 			{Pkg: "wire", Entry: "VerifH09w", What: "wrong arity rejected, nothing emitted",
 				Quick: map[string]int{}, Witnesses: []string{"wrong-arity"}},
 		},
